@@ -3,27 +3,11 @@ import Rspirv.Model.BuilderHand
 import Rspirv.Generated.Builder
 import Driver.Load
 import Driver.Trav
+import Rspirv.Model.Hyp
 /-! `build` channel: the Builder model driven by the same `name/arg/...` calls as the harness -/
 open Rspirv Rspirv.Model
 
-open Rspirv.Generated.Operands in
-def theBTables : BTables :=
-  { opFunction := op_Function, opFunctionEnd := op_FunctionEnd, opFunctionParameter := op_FunctionParameter
-    opLabel := op_Label, vFunctionControl := v_FunctionControl, vIdRef := v_IdRef
-    magic := Rspirv.Generated.Spirv.const_MAGIC_NUMBER
-    defaultVersion := Rspirv.Generated.Spirv.const_MAJOR_VERSION * 65536 + Rspirv.Generated.Spirv.const_MINOR_VERSION * 256 }
-
-open Rspirv.Generated.Operands in
-def theHTables : HTables :=
-  { opCapability := op_Capability, opExtension := op_Extension, opExtInstImport := op_ExtInstImport
-    opMemoryModel := op_MemoryModel, opEntryPoint := op_EntryPoint, opExecutionMode := op_ExecutionMode
-    opExecutionModeId := op_ExecutionModeId, opExtInst := op_ExtInst, opLine := op_Line, opNoLine := op_NoLine
-    opDecorationGroup := op_DecorationGroup, opString := op_String, opTypeForwardPointer := op_TypeForwardPointer
-    opTypePointer := op_TypePointer, opTypeOpaque := op_TypeOpaque, opConstant := op_Constant
-    opSpecConstant := op_SpecConstant, opVariable := op_Variable, opUndef := op_Undef
-    vCapability := v_Capability, vAddressingModel := v_AddressingModel, vMemoryModel := v_MemoryModel
-    vExecutionModel := v_ExecutionModel, vExecutionMode := v_ExecutionMode, vStorageClass := v_StorageClass
-    vIdRef := v_IdRef, vLit32 := v_LiteralBit32, vExtInstInteger := v_LiteralExtInstInteger }
+open Rspirv.Instances (theBTables theHTables)
 
 def readIp (s : String) : Option InsertPoint :=
   if s == "E" then some .end_ else if s == "B" then some .begin
@@ -184,4 +168,20 @@ def respondBuildRt (ws : List String) : Option String :=
           | .panic _ => "panic"
           | _ => go s' (showBOut c o :: out) ts
     some (go BState.new [] toks)
+  | _ => none
+
+/-! `buildhyp` channel (driver only): is the history inside the scope of `C06_roundtrip`? -/
+
+def respondBuildHyp (ws : List String) : Option String :=
+  match ws with
+  | "buildhyp" :: rest =>
+    let toks := rest.filter (· != "")
+    match toks.mapM readCall with
+    | none => some "bad-request"
+    | some cs =>
+      let s := (BState.run theBTables BState.new cs).1
+      let m := s.finish theBTables
+      let words := moduleWords m
+      let b (x : Bool) : String := if x then "1" else "0"
+      some s!"ok plain={b (plainRunB theLTables theBTables BState.new cs)} complete={b s.selFn.isNone} grammar={b (grammarStreamB theTables [] (Rspirv.Props.C15.allInstIter m))} words32={b (words.all (· < 4294967296))} calls={cs.length}"
   | _ => none
